@@ -300,3 +300,43 @@ pub fn decision_tails(l: usize) -> Vec<String> {
     }
     v
 }
+
+/// Ordered pairs (A, B) of coefficients for call histories "render / measure A, then B" aimed at weak cache
+/// keys: B differs from A
+///   * by single-bit changes in TWO adjacent 64-bit words at every relative rotation r (A + 2^(64j) + 2^(64(j+1)+r),
+///     r = 0..64): any fingerprint that folds the words with rotate / xor / add is linear, so some such pair collides
+///     while bit length and the other words stay equal;
+///   * in a MIDDLE word only (A + c*2^64 for 3+ word values, also across a power of ten: 10^k - 2^64 then 10^k + 2^64):
+///     keys made of length, lowest and highest word collide;
+///   * by +-1, +-2^64 (neighbours).
+pub fn weak_key_pairs() -> Vec<(BigInt, BigInt)> {
+    let one = BigInt::from(1);
+    let mut out = vec![];
+    let bases: Vec<BigInt> = vec![(&one << 191usize) + 12345, (&one << 140usize) + (&one << 70usize) + 99, spec::pow10(60) - (&one << 64usize), spec::pow10(45) + 7, (&one << 255usize) - 19];
+    for a in bases.iter() {
+        for j in 0..2usize {
+            for r in 0..64usize {
+                let b = a + (&one << (64 * j)) + (&one << (64 * (j + 1) + r));
+                if b.bits() == a.bits() {
+                    out.push((a.clone(), b));
+                }
+            }
+        }
+        for c in [1i64, 2, 3, 1000] {
+            out.push((a.clone(), a + (&one << 64usize) * c));
+            out.push((a + (&one << 64usize) * c, a.clone()));
+        }
+        out.push((a.clone(), a + 1));
+        out.push((a + 1, a.clone()));
+    }
+    for k in [30u64, 39, 45, 60, 77] {
+        let p = spec::pow10(k);
+        let w = &one << 64usize;
+        out.push((&p - &w, &p + &w));
+        out.push((&p + &w, &p - &w));
+        out.push((&p - 1, p.clone()));
+        out.push((p.clone(), &p - 1));
+        out.push((&p - &w, &p + &w * 5));
+    }
+    out
+}
